@@ -227,14 +227,7 @@ impl Paths {
     /// command output goes to another file system than the scenario root so
     /// that writing it is not a scheduling point
     pub fn out(&self) -> PathBuf {
-        let tag: Vec<String> = self
-            .scratch
-            .components()
-            .rev()
-            .take(2)
-            .map(|c| c.as_os_str().to_string_lossy().into_owned())
-            .collect();
-        std::env::temp_dir().join(format!("{}-{}-out", tag[1], tag[0]))
+        PathBuf::from("/dev/shm/psimout")
     }
 }
 
@@ -345,7 +338,7 @@ pub fn base_env(paths: &Paths) -> Vec<(String, String)> {
         ),
         ("LD_PRELOAD".into(), paths.shim.display().to_string()),
         ("HOME".into(), "/tmp".into()),
-        ("TMPDIR".into(), "/tmp".into()),
+        ("TMPDIR".into(), "/dev/shm/psimout/tmp".into()),
         ("RUST_BACKTRACE".into(), "0".into()),
         ("LANG".into(), "C".into()),
     ]
@@ -357,7 +350,7 @@ pub fn materialise(sc: &Scenario, paths: &Paths, clock: &mut u64) -> World {
     let _ = std::fs::remove_dir_all(&root);
     let _ = std::fs::remove_dir_all(paths.out());
     std::fs::create_dir_all(&root).expect("create root");
-    std::fs::create_dir_all(paths.out()).expect("create out");
+    std::fs::create_dir_all(paths.out().join("tmp")).expect("create out");
     let mut w = World::default();
     for d in &sc.dirs {
         std::fs::create_dir_all(root.join(d)).expect("mkdir");
